@@ -35,6 +35,7 @@ class Variant:
     new: str
     expect: tuple = ()  # obligation ids of which at least one must be VIOLATED (breaking)
     note: str = ""
+    base: str = ""  # a refactoring under /verif/refactors applied first: the variant is a slip made while refactoring
 
 
 V: list[Variant] = []
@@ -46,6 +47,11 @@ def b(id, props, file, old, new, expect, note=""):
 
 def t(id, props, file, old, new, note=""):
     V.append(Variant(id, tuple(props.split()), "benign", file, old, new, (), note))
+
+
+def bs(id, props, base, file, old, new, expect, note=""):
+    """A slip on top of a confirmed behaviour-preserving refactoring (which itself must stay silent)."""
+    V.append(Variant(id, tuple(props.split()), "breaking", file, old, new, tuple(expect.split()), note, base))
 
 
 # ------------------------------------------------------------------------------------- C01 / C03
@@ -354,6 +360,30 @@ t("twin-w3c-brackets-not-isdisjoint", "C20", W3C, 'if "[" in curie or "]" in cur
 b("w3c-prefix-casefold", "C20", W3C, "return bool(NCNAME_RE.fullmatch(prefix))", "return bool(NCNAME_RE.fullmatch(prefix.casefold()))", "C20-D1")
 
 
+# ------------------------------------------------------------------------------------- slips made while refactoring (round 4)
+bs("slip-lookup-helper-order", "C12", "C12-r16", REC, "for s in chain((preferred,), synonyms):", "for s in chain(synonyms, (preferred,)):", "C12-D5", "shared lookup helper consults synonyms first")
+bs("slip-groupby-sort-key", "C13", "C13-r16", API, "pairs = sorted((uri_prefix, curie_prefix) for curie_prefix, uri_prefix in prefix_map.items())", "pairs = sorted(((uri_prefix, curie_prefix) for curie_prefix, uri_prefix in prefix_map.items()), key=itemgetter(0))", "C13-D4", "pairs sorted by URI prefix only")
+bs("slip-get-record-demorgan", "C02 C05 C11", "C08-r16", API, "if record.prefix != prefix and prefix not in record.prefix_synonyms:", "if record.prefix != prefix or prefix not in record.prefix_synonyms:", "C02-D7 C05-X17 C11-X11", "De Morgan slip: and -> or")
+bs("slip-split-inverted", "C02 C07", "C06-r14", API, "if found == sep:", "if found != sep:", "C02-D1 C07-X21", "_split guard inverted")
+bs("slip-add-record-flat", "C05", "C05-r13", API, "if matched and not merge:", "if matched and merge:", "C05-D3", "flat add_record: wrong polarity of merge")
+bs("slip-remap-demorgan", "C11", "C11-r13", REC, "new_record is None or record == new_record", "new_record is None and record == new_record", "C11-D5", "De Morgan slip in the clash test")
+bs("slip-triples-merged", "C18", "C18-r13", MSA, "(subj_query is None) == (obj_query is None)", "(subj_query is None) != (obj_query is None)", "C18-D5", "merged rejection test inverted")
+bs("slip-discover-merged-skip", "C19", "C19-r13", DISC, "(converter is None or not converter.is_uri(uri))", "(converter is None or converter.is_uri(uri))", "C19-D5", "merged skip test loses its negation")
+bs("slip-subconverter-not", "C09", "C10-r15", API, "record.prefix in prefixes or not prefixes.isdisjoint(record.prefix_synonyms)", "record.prefix in prefixes or prefixes.isdisjoint(record.prefix_synonyms)", "C09-D3", "lost negation of isdisjoint")
+bs("slip-eq-demorgan", "C15", "C15-r13", API, "return not (self.prefix != other.prefix or self.identifier != other.identifier)", "return not (self.prefix != other.prefix and self.identifier != other.identifier)", "C15-D1", "De Morgan slip in __eq__")
+bs("slip-ne-not-negated", "C15", "C15-r13", API, "        return not equal\n", "        return equal\n", "C15-D1", "__ne__ forgets the negation")
+bs("slip-w3c-split-len", "C20", "C20-r15", W3C, "if len(pieces) == 1:", "if len(pieces) == 2:", "C20-D3", "piece count test inverted")
+bs("slip-file-sep", "C16", "C16-r14", API, 'delimiter = "\\t" if not sep else sep', 'delimiter = "\\t" if sep else sep', "C16-D4", "conditional default inverted")
+bs("slip-shacl-flag", "C14", "C14-r14", API, "prefixes = record._all_prefixes if include_synonyms else [record.prefix]", "prefixes = record._all_prefixes if not include_synonyms else [record.prefix]", "C14-D3", "include_synonyms inverted")
+bs("slip-jsonld-merged-filter", "C13 C14", "C13-r13", API, 'if key.startswith("@") or not isinstance(value, (str, dict)):', 'if key.startswith("@") or isinstance(value, (str, dict)):', "C13-D5 C14-D2", "merged skip test loses its negation")
+bs("slip-reduce-no-init", "C10", "C09-r15", API, "return reduce(_add, all_records, rv)", "return reduce(_add, all_records)", "C10-D3 C10-D6 C09-D1", "fold without the fresh accumulator")
+bs("slip-chain-kwargs-merge", "C09", "C10-r15", API, '"merge": True}', '"merge": False}', "C09-D1", "kwargs dict carries merge=False")
+bs("slip-parse-demorgan", "C07", "C07-r14", API, "if not (recognized_as_uri or self.is_curie(uri_or_curie)):", "if not (recognized_as_uri and self.is_curie(uri_or_curie)):", "C07-D1 C07-D2 C07-D3 C07-D4 C07-D5 C07-D6", "parse: De Morgan slip")
+bs("slip-std-prefix-tail", "C06 C08", "C15-r15", API, "return prefix if passthrough else None", "return None if passthrough else prefix", "C06-D5 C08-D3", "failure tail swapped")
+bs("slip-count-start", "C19", "C19-r15", DISC, "zip(itt.count(1), uri_prefixes)", "zip(itt.count(), uri_prefixes)", "C19-D2", "numbering starts at 0")
+
+
+
 def apply_unified_diff(files: dict, diff_text: str) -> dict | None:
     """Apply a unified diff (git format, paths a/src/curies/...) to an in-memory tree; None if it does not fit."""
     import re as _re
@@ -501,6 +531,13 @@ def _run_one(args):
     from .report import Cx, evaluate
 
     v = next(x for x in V if x.id == vid)
+    if v.base:
+        import pathlib
+
+        pf = pathlib.Path(__file__).resolve().parent.parent / "refactors" / v.base / "patch.diff"
+        files = apply_unified_diff(files, pf.read_text()) if pf.exists() else None
+        if files is None:
+            return {"id": v.id, "kind": v.kind, "props": list(v.props), "status": "not-applicable", "detail": f"base refactoring {v.base} does not fit the current tree"}
     src = files.get(v.file)
     if src is None or v.old not in src:
         return {"id": v.id, "kind": v.kind, "props": list(v.props), "status": "not-applicable", "detail": "anchor text not present in the current tree"}
